@@ -263,9 +263,14 @@ def run(args):
     rep = C.Report("C10", "proof", "structural rules on the view classes + static_assert / must-not-compile witnesses + block/raw-view bounds")
     work = C.scratch("c10")
     specs = O.default_specs(("own", "map", "cmap"))
-    fl = FX.get_many(specs)
+    n_traits = traits_witnesses(rep, work)       # compiler-decided witnesses first: they still report when a driver TU no longer compiles
+    try:
+        fl = FX.get_many(specs)
+    except C.AnalysisBroken as e:
+        rep.broke(str(e)[:600])
+        rep.rules = ["(facts extraction failed; only the static_assert witnesses were evaluated)"]
+        return rep.finish()
     n_maps, n_acc = surface(rep, fl)
-    n_traits = traits_witnesses(rep, work)
     n_assign = assignment_family(rep, fl)
     variants = ["SO2", "SE2", "SO3", "SE3", "SE_2_3", "SGal3", "R3", "B1"]
     n_mnc = must_not_compile(rep, work, variants)
